@@ -23,7 +23,7 @@ theorem cfg_setPool (n : Node) (a : Net) (b : Dir) (p : Pool) : (n.setPool a b p
 /-- What a step can do: nothing to the pools, or one successful insert after an accepted handshake, or one remove. -/
 inductive StepKind (n : Node) (ev : Ev) (n' : Node) : Prop where
   | same (h : n' = n)
-  | admit (net : Net) (dir : Dir) (conn : Nat) (sid : Sid) (peer : Key) (sendOk : Bool) (recv : Option Frame)
+  | admitted (net : Net) (dir : Dir) (conn : Nat) (sid : Sid) (peer : Key) (sendOk : Bool) (recv : Option Frame)
       (me K : Key) (p : Pool)
       (hev : ev = .connect net dir conn sid peer sendOk recv)
       (hme : n.me? net = some me)
@@ -51,7 +51,7 @@ theorem step_kind (n : Node) (ev : Ev) : StepKind n ev (n.step ev).1 := by
           by_cases ho : o = .ok
           · subst ho
             simp only [if_true]
-            exact .admit net dir conn sid peer sendOk recv me K p rfl hme hhs hins rfl
+            exact .admitted net dir conn sid peer sendOk recv me K p rfl hme hhs hins rfl
           · simp only [ho, if_false]
             exact .same rfl
   | close conn =>
@@ -92,13 +92,13 @@ theorem nodeInv_setPool (n : Node) (a : Net) (b : Dir) (p : Pool) (lv : List Liv
 theorem step_cfg (n : Node) (ev : Ev) : (n.step ev).1.cfg = n.cfg := by
   cases step_kind n ev with
   | same h => rw [h]
-  | admit net dir conn sid peer sendOk recv me K p hev hme hhs hins hn => rw [hn]; exact cfg_setPool _ _ _ _
+  | admitted net dir conn sid peer sendOk recv me K p hev hme hhs hins hn => rw [hn]; exact cfg_setPool _ _ _ _
   | close l hn => obtain ⟨lv, hn⟩ := hn; rw [hn]; exact cfg_setPool _ _ _ _
 
 theorem nodeInv_step (n : Node) (ev : Ev) (h : NodeInv n) : NodeInv (n.step ev).1 := by
   cases step_kind n ev with
   | same h' => rw [h']; exact h
-  | admit net dir conn sid peer sendOk recv me K p hev hme hhs hins hn =>
+  | admitted net dir conn sid peer sendOk recv me K p hev hme hhs hins hn =>
     rw [hn]
     have hp := EraVerif.Proofs.Pool.inv_insert (n.pool net dir)
       (admitKey dir K peer) conn (h.1 net dir)
@@ -167,7 +167,7 @@ theorem step_entry (n : Node) (ev : Ev) (a : Net) (b : Dir) (K : Key) (c : Nat)
     (K, c) ∈ (n.pool a b).current ∨ Authenticates n.cfg a b c K ev := by
   cases step_kind n ev with
   | same h' => rw [h'] at h; exact .inl h
-  | admit net dir conn sid peer sendOk recv me K' p hev hme hhs hins hn =>
+  | admitted net dir conn sid peer sendOk recv me K' p hev hme hhs hins hn =>
     rw [hn, pool_with_live, pool_setPool] at h
     split at h
     · rename_i hab
